@@ -599,6 +599,60 @@ func sameInput(a, b ssa.Value) bool {
 	return false
 }
 
+// listElement: v is element idx of the list base — `list[i]`, the element parameter of a
+// lo.Map(list, func(el, i) …) callback (idx is then the callback's index parameter), or
+// component k of such an element when the list is lo.ZipN(l0, l1, …): Zip puts l0[i], l1[i], …
+// side by side at position i, so the component is element i of lk. The identity of base looks
+// through single-assignment cells; (nil, nil) when v is nothing of the kind.
+func listElement(f *ssa.Function, v ssa.Value, depth int) (base, idx ssa.Value) {
+	if depth > 4 {
+		return nil, nil
+	}
+	v = unwrap(v)
+	component := func(tuple ssa.Value, k int) (ssa.Value, ssa.Value) {
+		b, i := listElement(f, tuple, depth+1)
+		zc, ok := b.(*ssa.Call)
+		if !ok || i == nil {
+			return nil, nil
+		}
+		name := strings.SplitN(calleeName(&zc.Call), "[", 2)[0]
+		if !strings.HasPrefix(name, "github.com/samber/lo.Zip") || strings.Contains(name, "ZipBy") || k >= len(zc.Call.Args) {
+			return nil, nil
+		}
+		return sliceIdentity(zc.Call.Args[k]), i
+	}
+	switch x := v.(type) {
+	case *ssa.Parameter:
+		if len(f.Params) == 2 && x == f.Params[0] {
+			if src := loMapSource(f); src != nil {
+				return sliceIdentity(src), f.Params[1]
+			}
+		}
+	case *ssa.Field:
+		return component(x.X, x.Field)
+	case *ssa.UnOp:
+		if x.Op != token.MUL {
+			return nil, nil
+		}
+		switch a := x.X.(type) {
+		case *ssa.IndexAddr:
+			return sliceIdentity(a.X), a.Index
+		case *ssa.FieldAddr:
+			// a field of a tuple that lives in a variable
+			if cell, ok := a.X.(*ssa.Alloc); ok {
+				if sts := storesTo(cell); len(sts) == 1 {
+					return component(sts[0].Val, a.Field)
+				}
+			}
+		case *ssa.Alloc:
+			if sts := storesTo(a); len(sts) == 1 {
+				return listElement(f, sts[0].Val, depth+1)
+			}
+		}
+	}
+	return nil, nil
+}
+
 func ruleRoutingPairs(r *Run) {
 	const rule = "R13c"
 	mg := r.Anchor(rule, "merger.(ExtendMergerFunc).Merge")
@@ -745,46 +799,7 @@ func ruleRoutingPairs(r *Run) {
 			"not every input of Merge has its schema recorded in the routing table under its URL (an input is left out, or recorded only under a condition): the fields of that service have no route")
 	}
 	r.AtLeast(rule, "SetFromSchema calls in Merge", n, 1)
-	// NewGateway pairs schemas[i] with urls[i]: the introspector must hand back one schema per
-	// URL it was given, in the order it was given them
-	if irs := r.Anchor(rule, "introspection.(*ParallelRemoteSchemaIntrospector).IntrospectRemoteSchemas"); irs != nil {
-		call, mapF, _ := r.amrSite(irs)
-		site := r.P.pos(irs.Pos())
-		if call != nil {
-			site = r.P.pos(call.Pos())
-		}
-		var fo *fanout
-		if call != nil && mapF != nil && len(irs.Params) == 2 {
-			fo = fanoutOver(irs, call, mapF, irs.Params[1])
-		}
-		r.Check(fo != nil, rule, fnName(irs), "one schema per given URL", site,
-			"the fan-out runs over every index of the URL list as received (lo.Range(len(urls)), or lo.Map(urls, …) that keeps URL and index together; the list is never reassigned, filtered or chunked)",
-			"the introspector no longer fans out over exactly the URL list it was given (the list is filtered, de-duplicated, re-sliced or the fan-out is split): NewGateway pairs schemas[i] with urls[i], so a shorter or re-ordered result records a service's fields under another service's URL")
-		if fo != nil {
-			// the URL that is introspected and the index that is carried belong together
-			fetches, carried := false, (*types.Var)(nil)
-			for _, ins := range allInstrs(mapF) {
-				switch x := ins.(type) {
-				case ssa.CallInstruction:
-					for _, a := range x.Common().Args {
-						if fo.isURL(unwrap(a)) {
-							fetches = true
-						}
-					}
-				case *ssa.Store:
-					if fa, ok := x.Addr.(*ssa.FieldAddr); ok && fo.isIndex(unwrap(x.Val)) {
-						carried = fieldOf(fa)
-					}
-				}
-			}
-			r.Check(fetches && carried != nil, rule, fnName(mapF), "URL i is introspected and index i is carried", r.P.pos(mapF.Pos()),
-				"the per-URL function introspects the URL of its own index and stores that index in its result",
-				"the per-URL function does not introspect the URL that belongs to the index it carries: after the sort, schema and URL of different services are paired")
-			if carried != nil {
-				r.checkIntrospectionOrder(rule, irs, call, carried)
-			}
-		}
-	}
+	ruleSchemaPerURL(r)
 	ng := r.Anchor(rule, "pebbles.NewGateway")
 	if ng != nil {
 		// &MergeInput{Schema: schemas[i], URL: given[i]} with one i, where `given` is the very list
@@ -831,25 +846,15 @@ func ruleRoutingPairs(r *Run) {
 						if !ok {
 							continue
 						}
+						// which element of which list the stored value is
+						base, idx := listElement(f, st.Val, 0)
 						switch fieldOf(fa).Name() {
 						case "Schema":
-							if ld, ok := st.Val.(*ssa.UnOp); ok && ld.Op == token.MUL {
-								if ia, ok := ld.X.(*ssa.IndexAddr); ok && sliceIdentity(ia.X) == schemas {
-									si = ia.Index
-								}
-							}
-							// the element parameter of a lo.Map(schemas, func(s, i) …) callback
-							if len(f.Params) == 2 && st.Val == ssa.Value(f.Params[0]) {
-								if src := loMapSource(f); src != nil && sliceIdentity(src) == schemas {
-									si = f.Params[1]
-								}
+							if base == schemas {
+								si = idx
 							}
 						case "URL":
-							if ld, ok := st.Val.(*ssa.UnOp); ok && ld.Op == token.MUL {
-								if ia, ok := ld.X.(*ssa.IndexAddr); ok {
-									ui, ubase = ia.Index, sliceIdentity(ia.X)
-								}
-							}
+							ui, ubase = idx, base
 						}
 					}
 				}
@@ -864,6 +869,56 @@ func ruleRoutingPairs(r *Run) {
 		}
 		r.Check(okPair, rule, fnName(ng), "MergeInput{schemas[i], urls[i]}", r.P.pos(ng.Pos()),
 			"schema i is paired with element i of the very list the introspector was given", why)
+	}
+}
+
+// ruleSchemaPerURL (R13c, the introspector's clause): IntrospectRemoteSchemas hands back one
+// schema per URL it was given, in the order it was given them — schemas[n] is the reconstruction
+// of the service behind urls[n]. This is the part of R13c that is about what the introspector
+// answers (C15: the reconstruction the gateway holds for a service is that service's); what
+// NewGateway and Merge then do with the pair is routing (C04, C05, C06) and stays in
+// ruleRoutingPairs, which includes this clause.
+func ruleSchemaPerURL(r *Run) {
+	const rule = "R13c"
+	// NewGateway pairs schemas[i] with urls[i]: the introspector must hand back one schema per
+	// URL it was given, in the order it was given them
+	if irs := r.Anchor(rule, "introspection.(*ParallelRemoteSchemaIntrospector).IntrospectRemoteSchemas"); irs != nil {
+		call, mapF, _ := r.amrSite(irs)
+		site := r.P.pos(irs.Pos())
+		if call != nil {
+			site = r.P.pos(call.Pos())
+		}
+		var fo *fanout
+		if call != nil && mapF != nil && len(irs.Params) == 2 {
+			fo = fanoutOver(irs, call, mapF, irs.Params[1])
+		}
+		r.Check(fo != nil, rule, fnName(irs), "one schema per given URL", site,
+			"the fan-out runs over every index of the URL list as received (lo.Range(len(urls)), or lo.Map(urls, …) that keeps URL and index together; the list is never reassigned, filtered or chunked)",
+			"the introspector no longer fans out over exactly the URL list it was given (the list is filtered, de-duplicated, re-sliced or the fan-out is split): NewGateway pairs schemas[i] with urls[i], so a shorter or re-ordered result records a service's fields under another service's URL")
+		if fo != nil {
+			// the URL that is introspected and the index that is carried belong together
+			fetches, carried := false, (*types.Var)(nil)
+			for _, ins := range allInstrs(mapF) {
+				switch x := ins.(type) {
+				case ssa.CallInstruction:
+					for _, a := range x.Common().Args {
+						if fo.isURL(unwrap(a)) {
+							fetches = true
+						}
+					}
+				case *ssa.Store:
+					if fa, ok := x.Addr.(*ssa.FieldAddr); ok && fo.isIndex(unwrap(x.Val)) {
+						carried = fieldOf(fa)
+					}
+				}
+			}
+			r.Check(fetches && carried != nil, rule, fnName(mapF), "URL i is introspected and index i is carried", r.P.pos(mapF.Pos()),
+				"the per-URL function introspects the URL of its own index and stores that index in its result",
+				"the per-URL function does not introspect the URL that belongs to the index it carries: after the sort, schema and URL of different services are paired")
+			if carried != nil {
+				r.checkIntrospectionOrder(rule, irs, call, carried)
+			}
+		}
 	}
 }
 
@@ -1080,29 +1135,45 @@ func ruleErrStructure(r *Run) {
 				"ExtendErrorList no longer returns exactly the old list followed by all formatted errors (truncation/filtering): which errors survive then depends on the arrival order of concurrently failing steps (C13) and client-visible errors are lost (C10, C20)")
 		}
 	}
-	// FormatError answers the empty list for the nil error only: any other early `return nil`
-	// (a nil *Error inside a list, an error it does not like) makes an error vanish — and a
-	// failed step whose error list formats to nothing is taken for a success
-	if fe != nil && len(fe.Params) == 1 {
-		for _, ret := range returnsOf(fe) {
-			v := retVals(ret)[0]
-			if !isNilConst(unwrap(v)) {
-				continue
-			}
-			okNil := false
-			for _, ins := range allInstrs(fe) {
-				iff, isIf := ins.(*ssa.If)
-				if !isIf {
+	// FormatError answers the empty list for the nil error only: any other early return of a
+	// list that is certainly empty — the nil constant, the empty literal ErrorList{}, make(…, 0)
+	// — (a nil *Error inside a list, a typed nil handed in as an error, an error it does not
+	// like) makes an error vanish — and a failed step whose error list formats to nothing is
+	// taken for a success. The helpers of the package that return an error list are held to the
+	// same: the empty answer only under `p == nil` on an interface-typed parameter of their own.
+	emptyAnswerOnlyForNil := func(fn *ssa.Function) {
+		for _, ret := range returnsOf(fn) {
+			for i, v := range retVals(ret) {
+				if !isErrorListType(fn.Signature.Results().At(i).Type()) {
 					continue
 				}
-				if side := nilTestSideEq(iff, fe.Params[0]); side != nil && len(side.Preds) == 1 && (side == ret.Block() || side.Dominates(ret.Block())) {
-					okNil = true
+				how := certainlyEmptyList(v, 0)
+				if how == "" {
+					continue
 				}
+				okNil := false
+				for _, ins := range allInstrs(fn) {
+					iff, isIf := ins.(*ssa.If)
+					if !isIf {
+						continue
+					}
+					for _, p := range fn.Params {
+						if !types.IsInterface(p.Type()) {
+							continue
+						}
+						if side := nilTestSideEq(iff, p); side != nil && len(side.Preds) == 1 && (side == ret.Block() || side.Dominates(ret.Block())) {
+							okNil = true
+						}
+					}
+				}
+				r.Check(okNil, rule, fnName(fn), "empty answer only for the nil error", r.P.pos(retPos(ret)),
+					"the empty list ("+how+") is returned under `err == nil` on the parameter itself",
+					fnName(fn)+" returns the empty list ("+how+") for something that is not the nil error (a typed nil inside a non-nil interface is not nil): that error disappears from the response, and a step that failed only with it is treated as a success with no data")
 			}
-			r.Check(okNil, rule, fnName(fe), "empty answer only for the nil error", r.P.pos(retPos(ret)),
-				"the empty list is returned under `err == nil` on the parameter itself",
-				"FormatError returns the empty list for something that is not the nil error: that error disappears from the response, and a step that failed only with it is treated as a success with no data")
 		}
+	}
+	if fe != nil && len(fe.Params) == 1 {
+		emptyAnswerOnlyForNil(fe)
 	}
 	// the functions that take part in formatting: the two entry points and the helpers of
 	// their package they call that handle error lists (a `compact(list)` step, a shared
@@ -1141,7 +1212,48 @@ func ruleErrStructure(r *Run) {
 		if fn == nil {
 			continue
 		}
+		if fn != fe && fn != ext {
+			emptyAnswerOnlyForNil(fn)
+		}
 		for _, f := range withClosures(fn) {
+			// an error list handed to a function outside the module whose result is an error
+			// list again: the result takes the place of the list, and which of its elements
+			// are still in it is decided in a body the checker does not see. Only functions
+			// known to keep one result per element are accepted.
+			for _, ins := range allInstrs(f) {
+				c, ok := ins.(*ssa.Call)
+				if !ok || c.Call.IsInvoke() {
+					continue
+				}
+				sc := c.Call.StaticCallee()
+				if sc == nil || inModule(sc) {
+					continue
+				}
+				takes := false
+				for _, a := range c.Call.Args {
+					if isErrorListType(a.Type()) {
+						takes = true
+					}
+				}
+				gives := false
+				if tup, ok := c.Type().(*types.Tuple); ok {
+					for i := 0; i < tup.Len(); i++ {
+						gives = gives || isErrorListType(tup.At(i).Type())
+					}
+				} else {
+					gives = isErrorListType(c.Type())
+				}
+				if !takes || !gives {
+					continue
+				}
+				name := extName(sc)
+				if why, ok := keepsEveryElement[name]; ok {
+					r.Tabled(rule, fnName(f), "error list through "+name, r.P.pos(c.Pos()), "keepsEveryElement", why)
+					continue
+				}
+				r.Bad(rule, fnName(f), "error list through "+name, r.P.pos(c.Pos()),
+					"an error list is handed to "+name+" and the list it returns is used in its place: "+name+" is not among the library functions known to keep every element (a de-duplication, a filter, a prefix drop elements): errors a service sent are lost, and which of several concurrent failures is reported depends on their arrival order")
+			}
 			// every round of a loop over errors adds to the result: an element that is skipped
 			// under some condition (a duplicate, a nil entry, "one per message") is an error lost
 			for _, b := range f.Blocks {
@@ -1245,6 +1357,66 @@ func ruleErrStructure(r *Run) {
 		}
 		r.AtLeast(rule, "fields of the converted error", n, 4)
 	}
+}
+
+// keepsEveryElement: library functions that return a list with one result (or one run of
+// results) per element of the list they are given, in the order of the elements.
+var keepsEveryElement = map[string]string{
+	"slices.Clone":                 "a copy of the list",
+	"github.com/samber/lo.Map":     "one result per element, in order; what the callback answers for an element is not examined here",
+	"github.com/samber/lo.FlatMap": "the results of every element, in order — the library form of `list = append(list, f(e)...)` in a loop",
+}
+
+// isErrorListType: a list of errors as the formatting code sees them — ErrorList, []*Error,
+// gqlerror.List, []*gqlerror.Error.
+func isErrorListType(t types.Type) bool {
+	if t == nil {
+		return false
+	}
+	sl, ok := t.Underlying().(*types.Slice)
+	if !ok {
+		return false
+	}
+	n := namedOf(sl.Elem())
+	return n == modPath+"/gqlerrors.Error" || strings.HasSuffix(n, "gqlparser/v2/gqlerror.Error")
+}
+
+// certainlyEmptyList: v is a list that has no element whatever the input — the nil constant,
+// a composite literal without elements, make(T, 0[, n]), or a phi of such values. The result
+// names the form ("" when v is not certainly empty).
+func certainlyEmptyList(v ssa.Value, depth int) string {
+	v = unwrap(v)
+	if depth > 4 {
+		return ""
+	}
+	switch x := v.(type) {
+	case *ssa.Const:
+		if x.IsNil() {
+			return "nil"
+		}
+	case *ssa.Slice:
+		if al, ok := x.X.(*ssa.Alloc); ok {
+			if arr, ok := derefType(al.Type()).Underlying().(*types.Array); ok && arr.Len() == 0 {
+				return "an empty literal"
+			}
+		}
+	case *ssa.MakeSlice:
+		if c, ok := x.Len.(*ssa.Const); ok && c.Value != nil && constant.Sign(c.Value) == 0 {
+			// a list made empty and appended to afterwards is another value (the append's)
+			return "make with length 0"
+		}
+	case *ssa.Phi:
+		how := ""
+		for _, e := range x.Edges {
+			h := certainlyEmptyList(e, depth+1)
+			if h == "" {
+				return ""
+			}
+			how = h
+		}
+		return how
+	}
+	return ""
 }
 
 // dependsOnCallOnField: v depends on a method call whose receiver is a load of field f
@@ -1751,7 +1923,47 @@ var routingExemptions = map[string]string{
 	"common.IsQueryObjectName": "scope of the node-lookup exemption (R13d.scope)",
 	"common.IsRootObjectName":  "scope of the id exemption: a root field called id is an ordinary field (repair 99e48c4)",
 	"merger.isNodeField":       "the relay lookup `node` of Query is planned by the gateway itself from the routes of the types named in its fragments (R13d.sig, R13d.scope); selections of `node` outside a fragment are dropped — recorded defect F46",
-	`"id"`:                     "the id of a non-root type is answered by every service that knows the type: it is fetched with whichever step reaches the object",
+	`"id"`:                     "the id of a non-root type is answered by every service that knows the type: it is fetched with whichever step reaches the object; accepted together with its scope only (exemptionScopes)",
+}
+
+// exemptionScopes: an exemption that holds within a scope only. The entry of routingExemptions
+// accepts the test; this table says which other test has to accompany it, and with which
+// outcome, wherever the exemption takes a route away. (The scope of merger.isNodeField —
+// IsQueryObjectName — is established by R13d.scope at every use of the predicate.)
+var exemptionScopes = map[string]struct {
+	scope string // suffix of the qualified name of the scope predicate
+	want  bool   // the outcome of the scope predicate under which the exemption applies
+	why   string
+}{
+	`"id"`: {"common.IsRootObjectName", false, "only the id of a NON-root type is answered by every service that knows the type; a root field called id belongs to the one service that declares it (repair 99e48c4)"},
+}
+
+// scopeNeed: an exemption with a scope met while classifying a condition, not yet seen together
+// with its scope.
+type scopeNeed struct {
+	exemption string
+	pos       token.Pos
+}
+
+// scopeTestSide: the If ends its block on a test of the scope predicate (possibly negated);
+// returns the successor taken when the predicate answers want.
+func scopeTestSide(iff *ssa.If, scope string, want bool) *ssa.BasicBlock {
+	v := iff.Cond
+	for {
+		u, ok := v.(*ssa.UnOp)
+		if !ok || u.Op != token.NOT {
+			break
+		}
+		v, want = u.X, !want
+	}
+	c, ok := v.(*ssa.Call)
+	if !ok || !strings.HasSuffix(strings.SplitN(calleeName(&c.Call), "[", 2)[0], scope) {
+		return nil
+	}
+	if want {
+		return iff.Block().Succs[0]
+	}
+	return iff.Block().Succs[1]
 }
 
 // ruleRoutingExemptions (R13d.exempt): every field of every object type gets a route unless one
@@ -1807,15 +2019,52 @@ func ruleRoutingExemptions(r *Run) {
 	}
 	n := 0
 	seenCond := map[ssa.Value]bool{}
-	var classify func(fn *ssa.Function, v ssa.Value, depth int)
+	// exemptions with a scope found while classifying the current condition and not yet seen
+	// together with their scope; memo: what a condition left pending when it was first classified
+	var pending []scopeNeed
+	memo := map[ssa.Value][]scopeNeed{}
+	var classify0 func(fn *ssa.Function, v ssa.Value, depth int)
+	classify := func(fn *ssa.Function, v ssa.Value, depth int) {
+		if seenCond[v] {
+			pending = append(pending, memo[v]...)
+			return
+		}
+		before := len(pending)
+		classify0(fn, v, depth)
+		memo[v] = append([]scopeNeed(nil), pending[before:]...)
+	}
+	// inScope (inside a predicate of the module, where there is no route write to walk to): the
+	// scope predicate is tested next to the exemption — its test with the wanted outcome
+	// dominates the exemption's test, or it is evaluated on one side of it only
+	inScope := func(iff *ssa.If, need scopeNeed) bool {
+		sp := exemptionScopes[need.exemption]
+		for _, ins := range allInstrs(iff.Parent()) {
+			switch x := ins.(type) {
+			case *ssa.If:
+				if side := scopeTestSide(x, sp.scope, sp.want); side != nil && len(side.Preds) == 1 && (side == iff.Block() || side.Dominates(iff.Block())) {
+					return true
+				}
+			case *ssa.Call:
+				if !strings.HasSuffix(strings.SplitN(calleeName(&x.Call), "[", 2)[0], sp.scope) {
+					continue
+				}
+				for _, s2 := range iff.Block().Succs {
+					if len(s2.Preds) == 1 && (s2 == x.Block() || s2.Dominates(x.Block())) {
+						return true
+					}
+				}
+			}
+		}
+		return false
+	}
 	report := func(fn *ssa.Function, what string, pos token.Pos, reason string, ok bool) {
 		n++
 		r.Check(ok, rule, fnName(fn), "condition "+what, r.P.pos(pos),
 			"confirmed exemption: "+reason,
 			"whether a field gets its route depends on a condition that is not one of the confirmed exemptions ("+what+"): a field or type for which it decides against the route stays in the gateway's schema without one — a request for it is refused or sent to a service that does not declare it")
 	}
-	classify = func(fn *ssa.Function, v ssa.Value, depth int) {
-		if seenCond[v] || depth > 6 {
+	classify0 = func(fn *ssa.Function, v ssa.Value, depth int) {
+		if depth > 6 {
 			return
 		}
 		seenCond[v] = true
@@ -1863,7 +2112,15 @@ func ruleRoutingExemptions(r *Run) {
 				for _, ins := range allInstrs(sc) {
 					switch x := ins.(type) {
 					case *ssa.If:
+						before := len(pending)
 						classify(sc, x.Cond, depth+1)
+						kept := pending[:before:before]
+						for _, need := range pending[before:] {
+							if !inScope(x, need) {
+								kept = append(kept, need)
+							}
+						}
+						pending = kept
 					case *ssa.Return:
 						for _, res := range x.Results {
 							if _, isConst := res.(*ssa.Const); !isConst {
@@ -1893,6 +2150,9 @@ func ruleRoutingExemptions(r *Run) {
 				}
 				reason, known := routingExemptions[k.Value.ExactString()]
 				report(fn, "on the name "+k.Value.ExactString(), c.Pos(), reason, known)
+				if _, scoped := exemptionScopes[k.Value.ExactString()]; scoped && known {
+					pending = append(pending, scopeNeed{k.Value.ExactString(), c.Pos()})
+				}
 				return
 			}
 			if _, isInt := c.X.Type().Underlying().(*types.Basic); isInt && c.X.Type().Underlying().(*types.Basic).Info()&types.IsInteger != 0 {
@@ -1967,7 +2227,65 @@ func ruleRoutingExemptions(r *Run) {
 				if reach(s0) == reach(s1) && avoid(s0) == avoid(s1) {
 					continue
 				}
+				pending = nil
 				classify(fn, iff.Cond, 0)
+				// an exemption that holds within a scope only: on the side of this branch on
+				// which the route can be lost, every way past the write goes through the scope
+				// test with the wanted outcome — or that outcome is established before the branch
+				for _, need := range pending {
+					sp := exemptionScopes[need.exemption]
+					losing := s0
+					if reach(s0) != reach(s1) {
+						if reach(s0) {
+							losing = s1
+						}
+					} else if avoid(s1) {
+						losing = s1
+					}
+					scoped := false
+					for _, ins2 := range allInstrs(fn) {
+						if x, ok := ins2.(*ssa.If); ok && x != iff {
+							if side := scopeTestSide(x, sp.scope, sp.want); side != nil && len(side.Preds) == 1 && (side == iff.Block() || side.Dominates(iff.Block())) {
+								scoped = true
+							}
+						}
+					}
+					if !scoped {
+						// walk the losing side; the wanted outcome of a scope test is not followed
+						seen := map[*ssa.BasicBlock]bool{}
+						var escapes func(b *ssa.BasicBlock) bool
+						escapes = func(b *ssa.BasicBlock) bool {
+							if b == w.Block() || seen[b] {
+								return false
+							}
+							if (header != nil && b == header) || len(b.Succs) == 0 {
+								return true
+							}
+							seen[b] = true
+							var skip *ssa.BasicBlock
+							if x, ok := b.Instrs[len(b.Instrs)-1].(*ssa.If); ok {
+								skip = scopeTestSide(x, sp.scope, sp.want)
+							}
+							for _, s2 := range b.Succs {
+								if s2 == skip && len(s2.Preds) == 1 {
+									continue
+								}
+								if escapes(s2) {
+									return true
+								}
+							}
+							return false
+						}
+						scoped = !escapes(losing)
+					}
+					outcome := "false"
+					if sp.want {
+						outcome = "true"
+					}
+					r.Check(scoped, rule, fnName(fn), "scope of the exemption "+need.exemption, r.P.pos(iff.Cond.Pos()),
+						"the route is lost through this exemption only where "+sp.scope+" has answered "+outcome+": "+sp.why,
+						"the exemption "+need.exemption+" takes the route away without "+sp.scope+" having answered "+outcome+" (test at "+r.P.pos(need.pos)+"): "+sp.why)
+				}
 			}
 		}
 	}
